@@ -12,7 +12,7 @@ Model of the index machinery of `SyncState` (cloudsync/sync/state.py), hand-writ
 * provider parameters: path helpers (`Csverif/Model/Path.lean`), `oid_is_path`, and the two oracles `prioritize`
   and `info_path` (the latter is an online call in `_update_kids`, state.py:863)
 * exceptions are `Exc`; a raised exception keeps the state reached so far (`M α = St → Except Exc α × St`)
-* Python recursion (`__setattr__` → `updated` → `_change_oid`/`_change_path`/`changed` rule → `__setattr__` …)
+* Python recursion (`__setattr__` → `updated` → `_change_oid`/`_change_path` → `__setattr__` …)
   is modelled with explicit fuel on `sideSet`; fuel exhaustion is `Exc.recursion` (Python: RecursionError).
   `Props/C11.lean` proves when the fuel suffices.
 
@@ -384,22 +384,26 @@ def changePath (setF : SetF) (cfg : Cfg) (s : Sd) (e : Nat) (path : Option Str) 
       setPriority setF cfg e (cfg.prio s pth)
     | _ => pure ()
 
-/-- the `changed` branch of `updated` (state.py:787-793) -/
-def changedRule (setF : SetF) (s : Sd) (e : Nat) (v : Chg) : M Unit := do
+/-- the `changed` branch of `updated` (state.py:787-793); the other side's dangling flag is zeroed by a direct write
+    (`ent[other]._changed = 0`, fix B) -/
+def changedRule (s : Sd) (e : Nat) (v : Chg) : M Unit := do
   let st ← getSt
   let o := s.other
   if (v.truthy && truthyS (st.side e s).oid) || ((st.side e o).changed.truthy && truthyS (st.side e o).oid) then
     modifySt (·.csAdd e)
-  else do
-    modifySt (·.csDiscard e)
-    whenM ((st.side e o).changed.truthy && !truthyS (st.side e o).oid) (setF e o (.changed (.num 0)))
+  else
+    modifySt (fun st1 =>
+      let st2 := st1.csDiscard e
+      if (st.side e o).changed.truthy && !truthyS (st.side e o).oid then
+        st2.modSide e o (fun x => { x with changed := .num 0 })
+      else st2)
 
 /-- `SyncState.updated` for a side attribute (state.py:772-802) -/
 def updatedSide (setF : SetF) (cfg : Cfg) (e : Nat) (s : Sd) (fv : FV) : M Unit := do
   (match fv with
   | .path v => changePath setF cfg s e v
   | .oid v => changeOid setF s e v
-  | .changed v => changedRule setF s e v
+  | .changed v => changedRule s e v
   | _ => pure ())
   modifySt (·.dirtyAdd e)
 
@@ -654,20 +658,14 @@ def update (cfg : Cfg) (fuel : Nat) (s : Sd) (ot : OType) (a : UArgs) (prior : O
   let now := (← getSt).now
   updateEntry cfg fuel e s { a with changed := some now, otype := some ot }
 
-/-- state.py:756-759 `forget_oid` -/
+/-- state.py:756-764 `forget_oid` (fix A): the id slot, the path slot (bucket dropped when it becomes empty; a missing
+    bucket is tolerated) and the pending-set membership go -/
 def forgetOid (s : Sd) (k : Oid) : M Unit := do
   let st ← getSt
   match AL.get (st.oids s) k with
   | none => pure ()
-  | some e => do
-    modifySt (fun st => st.setOids s (AL.erase (st.oids s) k))
-    let p := (st.side e s).path
-    match AL.get (st.paths s) p with
-    | none => throwE .key
-    | some b =>
-      match AL.get b k with
-      | none => throwE .key
-      | some _ => modifySt (fun st => st.setPaths s (AL.set (st.paths s) p (AL.erase b k)))
+  | some e =>
+    modifySt (fun st => (((st.setOids s (AL.erase (st.oids s) k)).popPathSlot s (st.side e s).path k).csDiscard e))
 
 /-- state.py:725-743 the loader: every side is indexed under `(path, oid)`, absent values included -/
 def loadOne (st : St) (i : Nat) : St :=
